@@ -819,6 +819,29 @@ func (e *Env) evalCall(n *ECall) (cval, error) {
 			b.t = e.coerceNil(b, a)
 		}
 		return cval{t: Ite(cnd, a.t, b.t), typ: a.typ}, nil
+	case "mapof", "ptrto", "sliceof":
+		// reflect.MapOf / PtrTo / SliceOf on reflect.Type values
+		want := 1
+		if n.Fn == "mapof" {
+			want = 2
+		}
+		if err := need(want); err != nil {
+			return cval{}, err
+		}
+		c.declRT()
+		var as []T
+		for _, a := range n.Args {
+			v, err := e.eval(a)
+			if err != nil {
+				return cval{}, err
+			}
+			as = append(as, v.t)
+		}
+		rt, err := c.W.ParseType(e.pkgPath, "reflect.Type")
+		if err != nil {
+			rt = types.NewInterfaceType(nil, nil)
+		}
+		return cval{t: app("Iface", "rt_"+n.Fn, as...), typ: rt}, nil
 	case "hashable":
 		// hashable(x): using interface value x as a map key does not panic
 		if err := need(1); err != nil {
